@@ -612,14 +612,14 @@ def mc_calls(tier, seed):
 
 def mc_memo(tier, seed):
     """'a function of its arguments' against a memo of the last call: none (the code) and a copying memo hold; a key
-    that aliases the caller's buffer and a result handed out by reference are counterexamples"""
+    that aliases the caller's buffer, a result handed out by reference and a memo whose zero value is a real key are counterexamples"""
     base = 'SPECIFICATION Spec\nCONSTANTS Vals = {1, 2, 3} MemoImpl = "%s"\nINVARIANTS FunctionOfArguments\nCHECK_DEADLOCK FALSE\n'
     res = []
     for impl in ("none", "copy"):
         r = vlib.run_mc("MC_Memo", base % impl, workers=2, timeout=300)
         r["module"] = "MC_Memo[%s]" % impl
         res.append(r)
-    for impl in ("aliaskey", "aliasres"):
+    for impl in ("aliaskey", "aliasres", "zerokey"):
         r = vlib.run_mc("MC_Memo", base % impl, workers=2, timeout=300, expect_violation="is violated")
         r["module"] = "MC_Memo[%s control]" % impl
         res.append(r)
